@@ -1019,6 +1019,8 @@ class Interp:
             return 0
         if base == "bool":
             return False
+        if base in ("f32", "f64"):
+            return 0.0
         if base in ("String", "str"):
             return ""
         if base in ("Arc", "Box", "Rc") and "<" in t:
